@@ -3,7 +3,9 @@
 Domain : and/or formulas (2-5 leaves, depth <= 3, every shape incl. those whose DNF repeats a leaf) in three
          program forms - `match F` over events, `await F` and `when F [or when G]` over flows f_i := match Ev_i() -
          x event sequences (orders with repetition + irrelevant events, length <= 10); all orders of the leaf
-         events are enumerated for a fixed family of formulas with <= 4 leaves.
+         events are enumerated for a fixed family of formulas with <= 4 leaves. Idle time (virtual clock of the harness,
+         3 / 6 / 60 s, i.e. below / beyond the interpreter's 5 s clean-up age of finished flows) passes between the events
+         of ~half of the sequences; it is not an event, so the oracle does not see it.
 Oracle : evaluate the formula over the set of events seen so far: the marker appears at exactly the first index
          at which the formula is true, never earlier, never twice; never if it is never true.
 """
@@ -20,14 +22,15 @@ CASE_TIMEOUT = 30
 RULE = (
     "formula F over leaves Ev0..Ev4 drawn recursively (and/or nodes with 2-3 children, depth<=3, 2-5 leaves, distinct leaves) "
     "rendered fully parenthesised as `match F` (leaves = distinct event names, or one event name with distinct parameter values, or `$r_i.Finished()` of flows started earlier) / `await F` / `when F [or when G]` (await/when leaves are flows f_i := match Ev_i(), or actions X_iAction() finished by their ActionFinished event, or a mix); optionally the statement sits behind `match Go()` and 0-4 events arrive before it becomes active (they must not count; a flow finished early can never satisfy its leaf); event sequence of <=10 events drawn from the "
-    "leaf events (with repetition) and 2 irrelevant events; in a third of the cases the statement sits in `while True` and the sequence goes on over several activations (only events since the current activation count); in a third of the await/when cases over flows the member flows can fail (event Fail_i aborts f_i: it never delivers Finished; when no running member can complete the group the case stops); in a quarter of the single-case await/when cases over flows 1-2 member flows finish without any event (their Finished events count from activation on); plus enumeration of ALL permutations of the leaf events for every "
-    "formula shape with <=4 leaves (x 3 forms). Non-trivial = formula uses both operators or has depth>=2; distinct by "
+    "leaf events (with repetition) and 2 irrelevant events; in a third of the cases the statement sits in `while True` and the sequence goes on over several activations (only events since the current activation count); in a third of the await/when cases over flows the member flows can fail (event Fail_i aborts f_i: it never delivers Finished; when no running member can complete the group the case stops); in a quarter of the single-case await/when cases over flows 1-2 member flows finish without any event (their Finished events count from activation on); in about half of the cases (every form, also the looping / failing / instant / gated ones) IDLE TIME passes between the events: items [position, seconds] with seconds in {3, 6, 60} (the harness owns the clock, smh.Clock; 5 s is the age after which the interpreter drops the state of finished flows) before 1-4 events of the sequence or before every event, and before pre-activation events / the activating Go - idle time is not an event, the marker is still due at exactly the first event that satisfies the formula (labels idle-time / no-idle-time, member-flow-done>5s-before-completion[+dnf>=2-and-groups] = a member flow finished more than 5 s before the completing event [and the formula normalises to >= 2 and-groups]); plus enumeration of ALL permutations of the leaf events for every "
+    "formula shape with <=4 leaves (x 3 forms), and the same permutations once more with 6 s of idle time in every gap between the events (<=3 leaves: all five forms; 4 leaves: await/when, idle time before the last two events). Non-trivial = formula uses both operators or has depth>=2; distinct by "
     "(form, formula, sequence)."
 )
 ASSUMPTIONS = [
     "leaves of one formula are distinct events/flows (as the quantifier says)",
     "for `when F or when G` satisfied by the same event either case's marker is accepted",
     "each flow f_i finishes on the first Ev_i after the statement became active",
+    "time that passes between two events (any amount) is not an event: it neither satisfies nor resets a leaf - 'the first moment the set of events received since the statement became active satisfies the formula' does not depend on the clock",
 ]
 WALL = {"quick": 150, "thorough": 1500}
 
@@ -171,6 +174,21 @@ def _case(draw):
     # the events received since the statement became active
     if form in ("await", "when") and leaf == "flow" and g is None and not case.get("loop") and not case.get("fail") and draw(st.integers(0, 3)) == 0:
         case["instant"] = sorted(draw(st.lists(st.sampled_from(list(range(n))), min_size=1, max_size=2, unique=True)))
+    # idle time between the events (the harness owns the clock): [position, seconds] = that much time passes right before
+    # seq[position] (before pre[position] / before Go for position == len(pre)). Idle time is not an event: the oracle ignores it.
+    # 6 s and 60 s are beyond the interpreter's clean-up age for finished flows (5 s), 3 s + 3 s add up to it.
+    mode = draw(st.sampled_from(["none", "none", "some", "some", "every-gap"]))
+    if mode != "none":
+        secs = st.sampled_from([6.0, 6.0, 3.0, 60.0])
+        m = len(case["seq"])
+        if mode == "every-gap":
+            case["idle"] = [[i, draw(secs)] for i in range(m)]
+        else:
+            pos = sorted(draw(st.lists(st.integers(0, m - 1), min_size=1, max_size=4, unique=True)))
+            case["idle"] = [[i, draw(secs)] for i in pos]
+        if pre is not None and draw(st.booleans()):
+            pos = sorted(draw(st.lists(st.integers(0, len(pre)), min_size=1, max_size=2, unique=True)))
+            case["pre_idle"] = [[i, draw(secs)] for i in pos]
     return case
 
 
@@ -198,6 +216,16 @@ def enumerate_cases(tier):
                     for leaf in ("action", "mixed"):
                         for p in perms:
                             yield {"form": form, "f": f, "g": None, "seq": list(p), "leaf": leaf}
+            # idle time (> clean-up age of finished flows) in every gap between the events: every order, every shape with
+            # <= 3 leaves in all forms; 4 leaves: the forms over flows, idle time only before the last two events
+            if n <= 3:
+                for form in ("match", "matchp", "matchref", "await", "when"):
+                    for p in perms:
+                        yield {"form": form, "f": f, "g": None, "seq": list(p), "pre": None, "idle": [[i, 6.0] for i in range(1, n)]}
+            else:
+                for form in ("await", "when"):
+                    for p in perms:
+                        yield {"form": form, "f": f, "g": None, "seq": list(p), "idle": [[2, 6.0], [3, 6.0]]}
 
 
 def _is_action_leaf(case, i):
@@ -276,19 +304,63 @@ def _timeline(case, defect=False):
     return None
 
 
+CLEANUP_AGE = 5.0  # seconds after which the interpreter drops the state of a finished flow (idle clean-up)
+
+
+def _clock_reset():
+    smh.install()
+    smh.Clock.virtual = 0.0
+
+
+def _pass_time(case, key, pos):
+    """Idle time right before item `pos` of the sequence (`idle`) / of the pre-activation events (`pre_idle`)."""
+    for p, secs in case.get(key) or []:
+        if p == pos:
+            smh.Clock.virtual += float(secs)
+
+
+def _idle_desc(case):
+    s = ""
+    if case.get("pre_idle"):
+        s += f" idle-before-pre[pos,s]={case['pre_idle']}"
+    if case.get("idle"):
+        s += f" idle-before-seq[pos,s]={case['idle']}"
+    return s
+
+
+def _idle_labels(case, aged):
+    if not case.get("idle") and not case.get("pre_idle"):
+        return ["no-idle-time"]
+    out = ["idle-time"]
+    if aged:
+        # a member FLOW (not an event / action leaf) finished more than the clean-up age before the completing event
+        out.append("member-flow-done>5s-before-completion")
+        if len(dnf(case["f"])) + (len(dnf(case["g"])) if case.get("g") else 0) >= 2:
+            out.append("member-flow-done>5s-before-completion+dnf>=2-and-groups")
+    return out
+
+
 def _prop_instant(case):
     f, form, seq = case["f"], case["form"], case["seq"]
     text = program(case)
+    _clock_reset()
     state = smh.init(text)
-    desc = f"{form} F={render(f, str)} with f_i, i in {case['instant']}, finishing without any event" + (f" pre={case['pre']}" if case.get("pre") is not None else "") + f" seq={seq}"
+    desc = f"{form} F={render(f, str)} with f_i, i in {case['instant']}, finishing without any event" + (f" pre={case['pre']}" if case.get("pre") is not None else "") + f" seq={seq}" + _idle_desc(case)
     out = smh.types(list(state.outgoing_events))
     if case.get("pre") is not None:
-        for e in case["pre"]:
+        for k, e in enumerate(case["pre"]):
+            _pass_time(case, "pre_idle", k)
             if "Done" in smh.types(smh.feed(state, smh.ev(f"Ev{e}"))) or "Done" in out:
                 raise Violation(f"{form}-fired-before-active", f"{desc}: marker before the statement became active")
+        _pass_time(case, "pre_idle", len(case["pre"]))
         out = smh.types(smh.feed(state, smh.ev("Go")))
     observed = [-1] if "Done" in out else []
+    first_at = {i: smh.Clock.virtual for i in case["instant"]}  # virtual time at which leaf i was first delivered
+    at = {}
     for idx, e in enumerate(seq):
+        _pass_time(case, "idle", idx)
+        at[idx] = smh.Clock.virtual
+        first_at.setdefault(e, smh.Clock.virtual)
         if "Done" in smh.types(smh.feed(state, smh.ev(f"Ev{e}"))):
             observed.append(idx)
     exp = _timeline(case)
@@ -301,7 +373,9 @@ def _prop_instant(case):
         labels.append("satisfied-at-activation")
     if _timeline(case, defect=True) != exp:
         labels.append("instant-flow-not-last-of-its-and-group")
-    view = {"statement": text.split("flow main\n")[1].split("\n  match Never")[0], "instant": case["instant"], "events": [f"Ev{e}" for e in seq], "fired_at": exp}
+    aged = exp is not None and exp >= 0 and any(at[exp] - first_at[x] > CLEANUP_AGE for x in set(leaves(f)) & set(first_at) if first_at[x] <= at[exp] and x not in case["instant"])
+    labels += _idle_labels(case, aged)
+    view = {"statement": text.split("flow main\n")[1].split("\n  match Never")[0], "instant": case["instant"], "events": [f"Ev{e}" for e in seq], "idle": case.get("idle"), "fired_at": exp}
     return ok(nt=len(o) == 2 or fdepth(f) >= 2 or len(leaves(f)) > len(case["instant"]), labels=labels, view=view)
 
 
@@ -319,6 +393,7 @@ def prop(case):
         return _prop_instant(case)
     f, g, form, seq = case["f"], case["g"], case["form"], case["seq"]
     text = program(case)
+    _clock_reset()
     try:
         state = smh.init(text)
     except Exception as e:  # the loader/interpreter must accept every well-formed group statement
@@ -343,22 +418,27 @@ def prop(case):
     failed_out = False
     dead = set()  # matchref: flows that finished before the statement became active can never satisfy their leaf
     if case.get("pre") is not None:
-        for e in case["pre"]:
+        for k, e in enumerate(case["pre"]):
+            _pass_time(case, "pre_idle", k)
             out = smh.types(smh.feed(state, mk(e)))
             if "Done" in out or "Done2" in out:
-                raise Violation(f"{form}-fired-before-active", f"{form} F={render(f, str)}: marker on pre-activation event Ev{e} of {case['pre']}")
+                raise Violation(f"{form}-fired-before-active", f"{form} F={render(f, str)}: marker on pre-activation event Ev{e} of {case['pre']}" + _idle_desc(case))
             if form == "matchref":
                 dead.add(e)
+        _pass_time(case, "pre_idle", len(case["pre"]))
         out = smh.types(smh.feed(state, smh.ev("Go")))
         if "Done" in out or "Done2" in out:
-            raise Violation(f"{form}-fired-before-active", f"{form} F={render(f, str)} pre={case['pre']}: marker right at activation, events received before the statement became active were counted")
+            raise Violation(f"{form}-fired-before-active", f"{form} F={render(f, str)} pre={case['pre']}: marker right at activation, events received before the statement became active were counted" + _idle_desc(case))
         # actions of await/when groups are started at activation
         for e0 in state.outgoing_events:
             t = e0["type"]
             if t.startswith("StartX") and t.endswith("Action"):
                 uids[int(t[6:-6])] = e0["action_uid"]
     activation = 0
+    first_at = {}  # virtual time at which leaf i was first delivered in the current activation
+    aged = False
     for idx, e in enumerate(seq):
+        _pass_time(case, "idle", idx)
         if e >= 100:
             event = smh.ev(f"Fail{e - 100}")
         elif e < 90 and _is_action_leaf(case, e) and e not in seen and e in uids:
@@ -376,6 +456,7 @@ def prop(case):
                 dead.add(e - 100)
         elif e not in dead:
             seen.add(e)
+            first_at.setdefault(e, smh.Clock.virtual)
         markers = [t for t in out if t in ("Done", "Done2")]
         if exp_at is None:
             ok_f = evaluate(f, seen)
@@ -383,7 +464,7 @@ def prop(case):
             if ok_f or ok_g:
                 exp_at = idx
                 exp_markers = {"Done"} if ok_f and not ok_g else {"Done2"} if ok_g and not ok_f else {"Done", "Done2"}
-        desc = f"{form} F={render(f, str)}" + (f" G={render(g, str)}" if g else "") + (f" pre={case['pre']}" if case.get("pre") is not None else "") + (" in `while True`" if case.get("loop") else "") + (" (100+i = flow f_i fails)" if case.get("fail") else "") + f" seq={seq}"
+        desc = f"{form} F={render(f, str)}" + (f" G={render(g, str)}" if g else "") + (f" pre={case['pre']}" if case.get("pre") is not None else "") + (" in `while True`" if case.get("loop") else "") + (" (100+i = flow f_i fails)" if case.get("fail") else "") + f" seq={seq}" + _idle_desc(case)
         if case.get("loop") and activation:
             desc += f" [activation #{activation + 1}: events since it became active {sorted(seen)}]"
         if case.get("fail") and exp_at is None and not markers:
@@ -401,10 +482,13 @@ def prop(case):
             if len(markers) != 1 or markers[0] not in exp_markers:
                 raise Violation(f"{form}-wrong-marker", f"{desc}: {markers} at step {idx}, expected one of {sorted(exp_markers)}")
             done_at = idx
+            if form in ("await", "when", "matchref") and any(smh.Clock.virtual - first_at[x] > CLEANUP_AGE for x in set(leaves(f) + (leaves(g) if g else [])) & set(first_at) if not _is_action_leaf(case, x)):
+                aged = True
             if case.get("loop"):
                 # the statement is active again: only events from now on count
                 activation += 1
                 seen, dead, done_at, exp_at, exp_markers = set(), set(), None, None, None
+                first_at = {}
         elif exp_at == idx:
             raise Violation(f"{form}-not-fired", f"{desc}: formula satisfied at step {idx} by {sorted(seen)} but no marker")
     o = ops(f) | (ops(g) if g else set())
@@ -423,5 +507,6 @@ def prop(case):
         labels.append("irrelevant-events")
     if len(set(seq)) < len(seq):
         labels.append("repeats")
-    view = {"statement": text.split("flow main\n")[1].split("\n  match Never")[0], "events": [f"Ev{e}" for e in seq], "fired_at": exp_at}
+    labels += _idle_labels(case, aged)
+    view = {"statement": text.split("flow main\n")[1].split("\n  match Never")[0], "events": [f"Ev{e}" for e in seq], "idle": case.get("idle"), "fired_at": exp_at}
     return ok(nt=nt, labels=labels, view=view)
